@@ -48,6 +48,7 @@ T_Reset ==
   /\ cfg' = CfgInit /\ rl' = {} /\ slabL' = {} /\ base' = SysEntries /\ rcl' = {} /\ rbe' = {}
   /\ queue' = <<>> /\ out' = <<>> /\ n' = 0 /\ term' = [j \in 1..MaxReq |-> 0]
   /\ shut' = 0 /\ stopped' = FALSE /\ handed' = FALSE /\ allOk' = TRUE /\ hist' = <<>> /\ prev' = <<>>
+  /\ gate' = TRUE /\ pending' = {} /\ crashed' = FALSE
   /\ rd' = 0 /\ Consume
 
 T_Send == Is("send") /\ Consume /\ UNCHANGED <<vars, rd>>
